@@ -137,9 +137,8 @@ def logUlpTol (fb : Nat) (r : Nat) (m : Nat) (e : Int) : Nat :=
     if ex ≤ 2 then fewUlps else if ex ≥ 51 then 2 ^ 51 else 2 ^ ex.toNat
 
 /-- class of a failing from-native line (inputs only) -/
-def fromClass (fb : Nat) (r : Nat) (src : Src) (payload : Bool) : String :=
+def fromClass (fb : Nat) (r : Nat) (src : Src) : String :=
   match src with
-  | .nan => if payload then "lns.from_ieee.nan_payload" else ""
   | .num _ m e =>
     let tw := logUlpTol fb r m e
     match accepted r m e, acceptedWith r m e tw with
@@ -197,9 +196,6 @@ def convlnsHandler : Handler := fun lhs rhs => do
       if v ≥ 2 ^ f.width then throw "source wider than the format"
       let m := if op == "fromd" then Lns.Model.convertF64 c ⟨mx, mn, hm⟩ v lg else convertIeee nt c ⟨mx, mn, hm⟩ v lg
       let src := srcOfBits f v
-      let rf := fracOf f v
-      let fmask := 2 ^ f.fbits - 1
-      let recognised := rf == (fmask &&& nt.snanmask) || rf == (fmask &&& (nt.qnanmask ||| nt.snanmask)) || rf == (fmask &&& nt.qnanmask)
       let (ok, why) := match fromOk n r wrap src o with
         | some b => (b, "not the nearest value in the log domain (nor its neighbour next to a midpoint)")
         | none => (false, "spec evaluation undecided")
@@ -208,7 +204,7 @@ def convlnsHandler : Handler := fun lhs rhs => do
                reason := if ok then "" else why ++ (match src with
                  | .num _ mm e => s!" nearest exponent {repr (nearestE r mm e)} accepted {repr (accepted r mm e)} result {repr (decode n o)}"
                  | _ => s!" source {repr src} result {repr (decode n o)}"),
-               cls := if ok then "" else fromClass f.fbits r src (!recognised),
+               cls := if ok then "" else fromClass f.fbits r src,
                tag := s!"{op}{asg}/{bt}/{fromTag n r src o}", trivial := triv }
     -- ------------------------------------------------------------------ from native integers (C03)
     | "fromi", [ty, vs, lgs, mxs, mns, hms], [os] =>
@@ -225,7 +221,7 @@ def convlnsHandler : Handler := fun lhs rhs => do
         | none => (false, "spec evaluation undecided")
       return { model := toHex m, specOk := ok,
                reason := if ok then "" else why ++ s!" value {x} nearest exponent {repr (nearestE r mag 0)} accepted {repr (accepted r mag 0)} result {repr (decode n o)}",
-               cls := if ok then "" else fromClass 52 r src false,
+               cls := if ok then "" else fromClass 52 r src,
                tag := s!"fromi{asg}/{bt}/{fromTag n r src o}" ++ (if mag ≥ 2 ^ 53 then "/above-2^53" else ""), trivial := mag == 0 }
     -- ------------------------------------------------------------------ to native floating point (C04)
     | "tod", [as], [os] | "tof", [as], [os] =>
